@@ -108,8 +108,8 @@ def main(argv):
         c = reg[name]
         cfgs = list(c.configs(tier))
         stride = 1
-        if tier == 'quick' and getattr(c, 'primary', None) is not None and prop not in c.primary:
-            stride = getattr(c, 'secondary_stride', 4)
+        if getattr(c, 'primary', None) is not None and prop not in c.primary:
+            stride = getattr(c, 'secondary_stride', 4) * (1 if tier == 'quick' else 3)
         if stride > 1:
             # secondary contract for this property: every stride-th configuration, offset chosen by the seed
             cfgs = cfgs[seed % stride::stride]
